@@ -15,11 +15,12 @@ from .c02 import after_list_removal  # noqa: F401
 from .c07 import blocks_of
 
 ID = "C11"
+VARY_KNOBS = True  # module-level tuning constants of the library are lowered in some runs (sim.core.lower_tuning_constants)
 VARY_ARGFORM = True  # integer call arguments also arrive as numpy integer scalars
 GUARD_KERNELS = True
 SHRINK_LISTS = ("ops", "faults", "pre", ("files", "nsamps"))
 SHRINK_MIN = {"nchans": 1, "nbits": 8, "gulp": 1, "nbins": 1, "nints": 1, "nbands": 1, "n": 10}
-SHRINK_SIMPLE = {"argform": "int"}
+SHRINK_SIMPLE = {"knobs": None, "argform": "int"}
 C = 299792458.0
 TSAMP = 0.001
 
